@@ -207,3 +207,14 @@ package tengo
 // string-literal arm) are inventoried but not proved.
 //@ func (*Compiler).Compile
 //@   mode unverified too large for inlining; needs contracts on its helpers
+
+// ---------------------------------------------------------------------------
+// VM dispatch loop: step contracts (one clause per loop iteration)
+// ---------------------------------------------------------------------------
+
+//@ func (*VM).run
+//@   props C06
+//@   mode panics-allowed bounds
+//@   private v
+//@   assigns *
+//@   loop 0 step budget{C06}: v.allocs == it0(v.allocs) || (v.allocs == it0(v.allocs) - 1 && v.allocs != 0)
